@@ -211,4 +211,44 @@ theorem reach_owner {w : World} (h : Reach w) : OwnerInv w := by
   obtain ⟨cfgs, tr, h⟩ := h
   exact run_owner (by intro d a l hns; simp [init] at hns) h
 
+/-! ### dry-run agents (C03: no history in dry-run mode) -/
+
+/-- what a dry-run agent can look like: it never gets past `dryRun` and has touched nothing -/
+def DryOk (ag : Agent) : Prop :=
+  ag.dry = true → Pristine ag ∧
+    (ag.pc = .setup ∨ ag.pc = .precond ∨ ag.pc = .dryRun ∨ ag.pc = .done ∨ ag.pc = .failed ∨ ag.pc = .dead)
+
+theorem step_dry {w w' : World} {a : Nat} {act : Act} (h : step w a act = some w')
+    (inv : DryOk (w.agents a)) : DryOk (w'.agents a) := by
+  unfold step stepAg at h
+  unfold DryOk at *
+  split at h <;> (try split at h) <;> (try split at h) <;> (try split at h)
+  all_goals first | (cases h; done) | skip
+  all_goals (injection h with h; subst h; simp only [setNs_agents, setLk_agents, release_agents, setAgent_same]; intro hd)
+  all_goals (have hp := inv (by simpa [didStep, didHandler] using hd))
+  all_goals (simp_all [Pristine, alive])
+
+theorem run_dry {w w' : World} {tr : List (Nat × Act)} (h : run w tr = some w')
+    (inv : ∀ b, DryOk (w.agents b)) : ∀ b, DryOk (w'.agents b) := by
+  induction tr generalizing w with
+  | nil => simp [run] at h; subst h; exact inv
+  | cons x tr ih =>
+    obtain ⟨a, act⟩ := x
+    simp only [run] at h
+    split at h
+    · cases h
+    · rename_i w1 hs
+      apply ih h
+      intro b
+      by_cases hb : b = a
+      · subst hb; exact step_dry hs (inv b)
+      · rw [step_other hs b hb]; exact inv b
+
+theorem reach_dry {w : World} (h : Reach w) (b : Nat) : DryOk (w.agents b) := by
+  obtain ⟨cfgs, tr, h⟩ := h
+  apply run_dry h
+  intro b _
+  simp only [init]
+  split <;> simp [Pristine, fresh, idle]
+
 end BdModel.Lock
